@@ -9,10 +9,10 @@ import re, struct
 from vlib.engine import Prop, Failure
 from props import msagen as G
 
-ROUNDTRIP_PROVED = ["afa", "phylip", "phylips", "clustal", "clustallike", "psiblast", "a2m (no insert columns)", "selex (with #=RF/#=CS/#=MM/#=SS/#=SA)",
+ROUNDTRIP_PROVED = ["afa", "phylip", "phylips", "clustal", "clustallike", "psiblast", "a2m (consensus and insert columns, reader padding)", "selex (with #=RF/#=CS/#=MM/#=SS/#=SA)",
                     "pfam and stockholm multi-block (names, rows, parsed #=GC, comments, #=GF incl. unparsed tags and cut-off flags)"]
 ROUNDTRIP_NOT_PROVED = ["round-trip THEOREM missing (executable writer + reader models compared with the library, monitors only): stockholm/pfam with unparsed #=GC, #=GS, #=GR; "
-                        "a2m with insert columns; numeric value of weights / cut-offs", "autodetection of SELEX / PSI-BLAST / PHYLIP output (monitors only)"]
+                        "numeric value of weights / cut-offs", "autodetection of SELEX / PSI-BLAST / PHYLIP output (monitors only)"]
 MODELLED = ["afa", "a2m", "psiblast", "clustal", "clustallike", "phylip", "phylips", "selex", "stockholm", "pfam"]      # writer + reader models, bytes and re-read alignment compared
 WRITER_ONLY = []
 ALL_FORMATS = G.FORMATS
@@ -70,6 +70,14 @@ SELEX_ANN_THEOREMS = ('selex_roundtrip_ann_text', 'selex_roundtrip_ann_digital',
                       'psiblast_write_accepted_digital', 'psiDigResOk_of', 'psiblast_rewrite_same_digital')
 
 
+A2M_INS_THEOREMS = ('a2m_roundtrip_ins_text', 'a2m_roundtrip_ins_digital', 'a2m_roundtrip_ins', 'a2m_ins_write_accepted', 'a2m_ins_write_accepted_digital',
+                    'a2m_ins_rewrite_same_text', 'a2m_ins_rewrite_same_digital', 'a2m_ins_rewrite_same', 'a2m_ins_subsumes_text', 'a2m_ins_subsumes_digital',
+                    'a2m_ins_subsumes', 'a2m_ins_shape', 'a2m_ins_rows_text', 'a2m_ins_rows_digital', 'a2mDigInsOk_of', 'a2mDigCellFixB_of',
+                    'exA2mIns_writable', 'exA2mInsDna_writable', 'exA2mInsEmpty_writable', 'lt_three_cases')
+A2M_INS_LEMMAS = ('a2mRead_write_ins', 'a2mRead_writeLines_ins', 'a2mInsTextWritable_writable', 'a2mInsDigitalWritable_writable', 'a2mWrite_projectIns',
+                  'a2mWrite_projectIns_text', 'a2mWrite_projectIns_digital', 'a2mProjectIns_eq_project', 'a2mWritable_ins', 'a2mInsRow_text', 'a2mInsRow_digital')
+
+
 class C03(Prop):
     id = "C03"
     lean_modules = ["EaselModel.Props.C03", "EaselModel.Msafile.WriteLemmas"]
@@ -80,7 +88,7 @@ class C03(Prop):
         "afa_rewrite_same_text", "afa_rewrite_same_digital",
         "phylip_strtoi32_natDec", "phylips_roundtrip_text", "phylips_roundtrip_digital", "phylips_roundtrip", "phylip_roundtrip_text", "phylip_roundtrip_digital",
         "phylip_roundtrip", "phylips_write_accepted", "phylip_write_accepted", "phylip_rewrite_same_text", "phylip_rewrite_same_digital",
-        "phylip_preserves_names_rows", "phylip_write_deterministic") + ('stockholm_write_deterministic', 'stoDigSymOk_of', 'pfam_roundtrip_plain_text', 'pfam_roundtrip_plain_digital', 'stockholm_roundtrip_plain_text', 'stockholm_roundtrip_plain_digital', 'stockholm_roundtrip_plain', 'stockholm_write_accepted', 'stockholm_preserves_names_rows', 'exSto_plain', 'exSto_writable', 'exStoDna_writable', 'exSto201_writable', 'stockholm_roundtrip_gc_gf', 'exStoAnn_writable', 'stockholm_roundtrip_header', 'cutoff_token_accepted', 'stockholm_rewrite_same', 'stockholm_rewrite_same_text', 'stockholm_rewrite_same_digital') + ('selex_write_deterministic', 'selexDigSymOk_of', 'selex_roundtrip_plain_text', 'selex_roundtrip_plain_digital', 'selex_roundtrip_plain', 'selex_write_accepted', 'selex_write_accepted_digital', 'selex_preserves_names_rows', 'selex_rewrite_same', 'selex_rewrite_same_digital', 'exSlx_plain', 'exSlx_writable', 'exSlxDna_writable', 'a2m_write_deterministic', 'a2mDigSymOk_of', 'a2m_roundtrip_text', 'a2m_roundtrip_digital', 'a2m_roundtrip', 'a2m_write_accepted', 'a2m_write_accepted_digital', 'a2m_rows_text', 'a2m_preserves_names_rows', 'a2m_rows_digital', 'a2m_rewrite_same_text', 'a2m_rewrite_same_digital', 'lt_two_cases', 'exA2m_writable', 'exA2mDna_writable') + ('clustal_write_deterministic', 'cluDigSymOk_of', 'clustal_roundtrip_text', 'clustal_roundtrip_digital', 'clustal_roundtrip', 'clustal_write_accepted', 'clustal_rewrite_same_text', 'clustal_rewrite_same_digital', 'clustal_preserves_names_rows', 'exClu1_writable', 'exClu_writable', 'exCluDna_writable', 'psiblast_write_deterministic', 'psiblast_roundtrip_text', 'psiDigSymOk_of', 'psiblast_roundtrip_digital', 'psiblast_roundtrip', 'psiblast_write_accepted', 'psiblast_rewrite_same_text', 'psiblast_preserves_names_rows', 'exPsi1_writable', 'exPsi_writable', 'exPsiDna_writable') + AUTODETECT_THEOREMS + SELEX_ANN_THEOREMS] + [
+        "phylip_preserves_names_rows", "phylip_write_deterministic") + ('stockholm_write_deterministic', 'stoDigSymOk_of', 'pfam_roundtrip_plain_text', 'pfam_roundtrip_plain_digital', 'stockholm_roundtrip_plain_text', 'stockholm_roundtrip_plain_digital', 'stockholm_roundtrip_plain', 'stockholm_write_accepted', 'stockholm_preserves_names_rows', 'exSto_plain', 'exSto_writable', 'exStoDna_writable', 'exSto201_writable', 'stockholm_roundtrip_gc_gf', 'exStoAnn_writable', 'stockholm_roundtrip_header', 'cutoff_token_accepted', 'stockholm_rewrite_same', 'stockholm_rewrite_same_text', 'stockholm_rewrite_same_digital') + ('selex_write_deterministic', 'selexDigSymOk_of', 'selex_roundtrip_plain_text', 'selex_roundtrip_plain_digital', 'selex_roundtrip_plain', 'selex_write_accepted', 'selex_write_accepted_digital', 'selex_preserves_names_rows', 'selex_rewrite_same', 'selex_rewrite_same_digital', 'exSlx_plain', 'exSlx_writable', 'exSlxDna_writable', 'a2m_write_deterministic', 'a2mDigSymOk_of', 'a2m_roundtrip_text', 'a2m_roundtrip_digital', 'a2m_roundtrip', 'a2m_write_accepted', 'a2m_write_accepted_digital', 'a2m_rows_text', 'a2m_preserves_names_rows', 'a2m_rows_digital', 'a2m_rewrite_same_text', 'a2m_rewrite_same_digital', 'lt_two_cases', 'exA2m_writable', 'exA2mDna_writable') + ('clustal_write_deterministic', 'cluDigSymOk_of', 'clustal_roundtrip_text', 'clustal_roundtrip_digital', 'clustal_roundtrip', 'clustal_write_accepted', 'clustal_rewrite_same_text', 'clustal_rewrite_same_digital', 'clustal_preserves_names_rows', 'exClu1_writable', 'exClu_writable', 'exCluDna_writable', 'psiblast_write_deterministic', 'psiblast_roundtrip_text', 'psiDigSymOk_of', 'psiblast_roundtrip_digital', 'psiblast_roundtrip', 'psiblast_write_accepted', 'psiblast_rewrite_same_text', 'psiblast_preserves_names_rows', 'exPsi1_writable', 'exPsi_writable', 'exPsiDna_writable') + AUTODETECT_THEOREMS + SELEX_ANN_THEOREMS + A2M_INS_THEOREMS] + ["EaselModel.Msafile." + t for t in A2M_INS_LEMMAS] + [
         "EaselModel.Msafile.afaRead_write", "EaselModel.Msafile.stoRead_write", "EaselModel.Msafile.splitLines_join", "EaselModel.Msafile.afaDigitalWritable_writable",
         "EaselModel.Msafile.guess_stockholmWrite", "EaselModel.Msafile.guess_clustalWrite", "EaselModel.Msafile.guess_afaWrite", "EaselModel.Msafile.guess_a2mWrite", "EaselModel.Msafile.cutsetOf_eq", "EaselModel.Msafile.head_steps", "EaselModel.Msafile.fmtF1_realTok", "EaselModel.Msafile.stockholmWrite_project", "EaselModel.Msafile.phylipWriteW_unset", "EaselModel.Msafile.phylipWriteW_default"] + [
         "EaselModel.Msafile." + t for t in ("stockholmWrite_eq", "stockholmWrite_magic", "blockStarts_length", "blockStarts_lt", "stockholm_blocks", "pfam_blocks",
@@ -96,8 +104,9 @@ class C03(Prop):
                   "lists of conditions (>=1 sequence and column; names without blank/tab/NUL/LF [Stockholm: pairwise distinct, not starting with # or //; Clustal: a row is not mistaken "
                   "for a consensus line]; residues graphic / digital rows well formed) and `project` is the documented loss of the format: aligned FASTA (names, descriptions, rows exactly), "
                   "PHYLIP sequential and interleaved (names cut to 10 characters, rows under the output rectification), Clustal and Clustal-like (names, rows), PSI-BLAST (names, rows, the RF "
-                  "line the reader synthesises; O written as X; every column a consensus column or all '-'), A2M without insert columns (names, descriptions, rows under the case/gap convention: letters upper-cased, O as X, non-residues "
-                  "as '-'), SELEX with #=RF/#=CS/#=MM and per-sequence #=SS/#=SA (any number of 60-column blocks), Pfam and multi-block Stockholm with names, rows, the five parsed #=GC lines, "
+                  "line the reader synthesises; O written as X; every column a consensus column or all '-'), A2M INCLUDING insert columns (names, descriptions; consensus columns upper-cased / '-', O as X; insert residues lower-cased, left-justified "
+                  "in each inter-consensus run and padded with '.' / the gap code to the longest run, all-gap insert columns dropped, rf = x on consensus and . on insert columns: "
+                  "`a2mProjectIns`, which equals the insert-free `a2mProject` when every column is a consensus column), SELEX with #=RF/#=CS/#=MM and per-sequence #=SS/#=SA (any number of 60-column blocks), Pfam and multi-block Stockholm with names, rows, the five parsed #=GC lines, "
                   "comments, #=GF ID/AC/DE/AU, unparsed #=GF tags in order, and which score cut-offs are set; for each: the output is a function of the alignment (`_write_deterministic`), is "
                   "accepted, the next read is EOF and the re-read alignment is well formed (`_write_accepted`), what is preserved exactly (`_preserves_names_rows`, `selex_ann_preserves`, "
                   "`a2m_rows_text/digital`), and write(read(write m)) = write m (`_rewrite_same`, text and digital; Stockholm for ANY annotation without weights/cut-offs). Autodetection of "
@@ -107,8 +116,8 @@ class C03(Prop):
                   "re-read alignment field by field, second read, re-written bytes; each writer is called through esl_msafile_Write AND directly. ALL ten formats x text/amino/DNA/RNA are "
                   "additionally monitored on the real ASan/UBSan/LSan-built library: write -> read (declared and autodetected) -> field-by-field comparison under each format's conventions "
                   "(Stockholm/Pfam: every field incl. weight and cut-off values) -> re-write and byte comparison. "
-                  "NOT PROVED (monitors + executable models only): Stockholm/Pfam with unparsed #=GC, #=GS (accessions, descriptions, weights, other tags) and #=GR lines; A2M with insert "
-                  "columns (the reader's padding); numeric VALUE of weights and cut-offs (the reader model keeps set/unset); autodetection of SELEX/PSI-BLAST/PHYLIP output.")
+                  "NOT PROVED (monitors + executable models only): Stockholm/Pfam with unparsed #=GC, #=GS (accessions, descriptions, weights, other tags) and #=GR lines; A2M with separate "
+                  "accessions; numeric VALUE of weights and cut-offs (the reader model keeps set/unset); autodetection of SELEX/PSI-BLAST/PHYLIP output.")
     level_note = ("Lean models of ALL ten writers (incl. stockholm_write with margins, wrapping, unique-name forcing and exact printf %.2f/%.1f; PHYLIP with ESL_MSAFILE_FMTDATA namewidth/rpl) "
                   "and ten readers are compared byte for byte / field for field with the library on every case. printf/strtod of 2-/1-decimal weights and cut-offs is trusted "
                   "(cutoff_token_accepted proves that %.1f of any finite float is a token the cut-off parser accepts). Known finding C03:stockholm:first-mention-order: the Stockholm reader numbers "
